@@ -188,16 +188,17 @@ func runInit(hooksDir, tmpDir string) (names []string, initErr error, panicked s
 	return
 }
 
-// namedIn reports whether text names the hook: the name appears delimited, i.e. not as a part of a longer path
-// component or of a path that continues ("a" is not named by ".../a.sh'" nor by ".../a/b'").
-func namedIn(text, name string) bool {
-	isBefore := func(c byte) bool { return strings.IndexByte(" '\"`/=([<:\t\n", c) >= 0 }
+// namedIn reports whether text names the hook: its relative path appears as a delimited token, either on its
+// own or as the tail of the absolute path of the file ("a" is not named by ".../a.sh'", ".../a/b'" or
+// ".../lib/a'").
+func namedIn(text, name, hooksDir string) bool {
+	isBefore := func(c byte) bool { return strings.IndexByte(" '\"`=([<:\t\n", c) >= 0 }
 	isAfter := func(c byte) bool { return strings.IndexByte(" '\"`:,;)]>\t\n", c) >= 0 }
 	for i := 0; i+len(name) <= len(text); i++ {
 		if text[i:i+len(name)] != name {
 			continue
 		}
-		okB := i == 0 || isBefore(text[i-1])
+		okB := i == 0 || isBefore(text[i-1]) || (text[i-1] == '/' && strings.HasSuffix(text[:i-1], hooksDir))
 		j := i + len(name)
 		okA := j == len(text) || isAfter(text[j]) || (text[j] == '.' && (j+1 == len(text) || text[j+1] == ' ' || text[j+1] == '\n'))
 		if okB && okA {
@@ -221,10 +222,78 @@ func readLog(p string) ([]string, error) {
 	return out, nil
 }
 
-// judge compares what the real code did with what TLC computed.
-func judge(c *Case, root, base string) (sig, detail string, obs *Observed, spawns int, infra error) {
-	hooksDir, logPath, tmpDir, err := materialise(base, c, root)
+// onDisk is the tree the previous case left in place. Consecutive cases that differ only in the bad hook reuse
+// it: the scripts of the old and of the new bad hook are rewritten and the invocation log is emptied (Init
+// writes nothing below the hooks directory).
+var onDisk struct {
+	key, base, bad string
+}
+
+func treeKey(c *Case, root string) string {
+	b, _ := json.Marshal(c.Entries)
+	return root + "\x00" + string(b)
+}
+
+func rewrite(base, root string, c *Case, rel, behaviour string) error {
+	p := filepath.Join(base, root, filepath.FromSlash(rel))
+	// the file exists: WriteFile keeps its mode bits
+	return os.WriteFile(p, []byte(scriptFor(rel, filepath.Join(base, "invocations.log"), behaviour)), 0o644)
+}
+
+// setup puts the tree of c on disk below scratch, reusing the previous one when only the bad hook differs.
+func setup(scratch string, c *Case) (hooksDir, logPath, tmpDir string, err error) {
+	key := treeKey(c, c.Root)
+	if onDisk.key == key {
+		base := onDisk.base
+		if onDisk.bad != "" {
+			if err = rewrite(base, c.Root, c, onDisk.bad, "good"); err != nil {
+				return
+			}
+		}
+		onDisk.bad = ""
+		if c.Bad != "" {
+			if err = rewrite(base, c.Root, c, c.Bad, c.Kind); err != nil {
+				return
+			}
+			onDisk.bad = c.Bad
+		}
+		logPath = filepath.Join(base, "invocations.log")
+		if err = os.WriteFile(logPath, nil, 0o644); err != nil {
+			return
+		}
+		return filepath.Join(base, c.Root), logPath, filepath.Join(base, "tmp"), nil
+	}
+	dropTree()
+	base := filepath.Join(scratch, fmt.Sprintf("t%d", c.ID))
+	os.RemoveAll(base)
+	hooksDir, logPath, tmpDir, err = materialise(base, c, c.Root)
+	onDisk.base = base
+	if err == nil {
+		onDisk.key, onDisk.bad = key, c.Bad
+	}
+	return
+}
+
+func dropTree() {
+	if onDisk.base != "" {
+		os.RemoveAll(onDisk.base)
+	}
+	onDisk.key, onDisk.base, onDisk.bad = "", "", ""
+}
+
+// judge runs the case on the real code and compares what it did with what TLC computed. With base == "" the
+// tree is set up (or reused) below scratch under the case's own root name; otherwise a fresh copy is
+// materialised below base under the given root name (diagnosis runs).
+func judge(c *Case, root, scratch, base string) (sig, detail string, obs *Observed, spawns int, infra error) {
+	var hooksDir, logPath, tmpDir string
+	var err error
+	if base == "" {
+		hooksDir, logPath, tmpDir, err = setup(scratch, c)
+	} else {
+		hooksDir, logPath, tmpDir, err = materialise(base, c, root)
+	}
 	if err != nil {
+		dropTree()
 		return "", "", nil, 0, fmt.Errorf("materialise: %w", err)
 	}
 	names, initErr, panicked := runInit(hooksDir, tmpDir)
@@ -309,7 +378,7 @@ func judge(c *Case, root, base string) (sig, detail string, obs *Observed, spawn
 		if initErr == nil {
 			return "C20/bad-hook-accepted/" + c.Kind, fmt.Sprintf("hook %q is bad (%s) but Init returned no error; GetHookNames() = %v", c.Bad, c.Kind, names), obs, spawns, nil
 		}
-		if !namedIn(obs.Err, c.Errname) {
+		if !namedIn(obs.Err, c.Errname, hooksDir) {
 			return "C20/error-without-hook-name/" + c.Kind, fmt.Sprintf("the error does not name the bad hook %q: %s", c.Errname, short(obs.Err)), obs, spawns, nil
 		}
 	}
@@ -339,10 +408,7 @@ func sameSet(a, b []string) bool {
 }
 
 func runCase(c *Case, scratch string) Result {
-	base := filepath.Join(scratch, fmt.Sprintf("c%d", c.ID))
-	os.RemoveAll(base)
-	defer os.RemoveAll(base)
-	sig, detail, obs, spawns, infra := judge(c, c.Root, filepath.Join(base, "r"))
+	sig, detail, obs, spawns, infra := judge(c, c.Root, scratch, "")
 	if infra != nil {
 		return Result{Case: c.ID, OK: false, Sig: "INFRA", Detail: infra.Error()}
 	}
@@ -351,7 +417,10 @@ func runCase(c *Case, scratch string) Result {
 		res.Got = obs
 		// Diagnosis for the signature: does the very same tree pass when the hooks directory has an ordinary name?
 		if c.Root != "hooks" {
-			sig2, _, _, sp2, infra2 := judge(c, "hooks", filepath.Join(base, "d"))
+			diag := filepath.Join(scratch, fmt.Sprintf("d%d", c.ID))
+			os.RemoveAll(diag)
+			sig2, _, _, sp2, infra2 := judge(c, "hooks", scratch, diag)
+			os.RemoveAll(diag)
 			res.Spawns += sp2
 			if infra2 == nil && sig2 == "" {
 				res.RootOnly = true
@@ -436,4 +505,5 @@ func main() {
 		b, _ := json.Marshal(r)
 		of.Write(append(b, '\n'))
 	}
+	dropTree()
 }
